@@ -102,6 +102,35 @@ func init() {
 		_, r := quoTerm(fr, a, b)
 		return bigSet(args[0], r)
 	})
+	reg("(*math/big.Int).DivMod", func(fr *frame, args []value) value {
+		a, b := bigOf(args[1]), bigOf(args[2])
+		divz(fr, b)
+		q, r := term.IntBin("div", a, b), term.IntBin("mod", a, b)
+		bigSet(args[3], r)
+		bigSet(args[0], q)
+		return tuple{args[0], args[3]}
+	})
+	reg("(*math/big.Int).QuoRem", func(fr *frame, args []value) value {
+		a, b := bigOf(args[1]), bigOf(args[2])
+		divz(fr, b)
+		q, r := quoTerm(fr, a, b)
+		bigSet(args[3], r)
+		bigSet(args[0], q)
+		return tuple{args[0], args[3]}
+	})
+	reg("(*math/big.Int).CmpAbs", func(fr *frame, args []value) value {
+		abs := func(t *term.Term) *term.Term {
+			return term.Ite(term.IntCmp("<", t, term.IntConstI(0)), term.IntNeg(t), t)
+		}
+		a, b := abs(bigOf(args[0])), abs(bigOf(args[1]))
+		if fr.decide(term.IntCmp("<", a, b)) {
+			return -1
+		}
+		if fr.decide(term.Eq(a, b)) {
+			return 0
+		}
+		return 1
+	})
 	reg("(*math/big.Int).Neg", func(fr *frame, args []value) value {
 		return bigSet(args[0], term.IntNeg(bigOf(args[1])))
 	})
@@ -477,5 +506,54 @@ func init() {
 func init() {
 	reg("github.com/meshplus/bitxhub/internal/zzverif.Thorough", func(fr *frame, args []value) value {
 		return os.Getenv("VERIF_TIER") == "thorough"
+	})
+}
+
+// concrete-only math/big operations (bloom filters etc.)
+func init() {
+	conc := func(fr *frame, v value) *big.Int {
+		t := bigOf(v)
+		if !t.IsConst() {
+			panic(unsupported("bitwise math/big operation on a symbolic value"))
+		}
+		return t.Val
+	}
+	bin := func(name string, f func(z, x, y *big.Int) *big.Int) {
+		reg("(*math/big.Int)."+name, func(fr *frame, args []value) value {
+			return bigSet(args[0], term.IntConst(f(new(big.Int), conc(fr, args[1]), conc(fr, args[2]))))
+		})
+	}
+	bin("Or", func(z, x, y *big.Int) *big.Int { return z.Or(x, y) })
+	bin("And", func(z, x, y *big.Int) *big.Int { return z.And(x, y) })
+	bin("Xor", func(z, x, y *big.Int) *big.Int { return z.Xor(x, y) })
+	bin("AndNot", func(z, x, y *big.Int) *big.Int { return z.AndNot(x, y) })
+	sh := func(name string, f func(z, x *big.Int, n uint) *big.Int) {
+		reg("(*math/big.Int)."+name, func(fr *frame, args []value) value {
+			n, ok := args[2].(uint)
+			if !ok {
+				panic(unsupported("big.Int shift by symbolic amount"))
+			}
+			return bigSet(args[0], term.IntConst(f(new(big.Int), conc(fr, args[1]), n)))
+		})
+	}
+	sh("Lsh", func(z, x *big.Int, n uint) *big.Int { return z.Lsh(x, n) })
+	sh("Rsh", func(z, x *big.Int, n uint) *big.Int { return z.Rsh(x, n) })
+	reg("(*math/big.Int).Bit", func(fr *frame, args []value) value { return conc(fr, args[0]).Bit(args[1].(int)) })
+	reg("(*math/big.Int).SetBit", func(fr *frame, args []value) value {
+		return bigSet(args[0], term.IntConst(new(big.Int).SetBit(conc(fr, args[1]), args[2].(int), args[3].(uint))))
+	})
+	reg("(*math/big.Int).FillBytes", func(fr *frame, args []value) value {
+		buf := args[1].([]value)
+		b := make([]byte, len(buf))
+		conc(fr, args[0]).FillBytes(b)
+		copy(buf, bytesValue(b))
+		return buf
+	})
+	reg("(*math/big.Int).Exp", func(fr *frame, args []value) value {
+		var m *big.Int
+		if p, ok := args[3].(*value); ok && p != nil {
+			m = conc(fr, args[3])
+		}
+		return bigSet(args[0], term.IntConst(new(big.Int).Exp(conc(fr, args[1]), conc(fr, args[2]), m)))
 	})
 }
